@@ -104,6 +104,8 @@ type Exec struct {
 	defAsserted map[int]bool
 	feltQ       map[string]*big.Int
 	byteProv    map[int]byteProv
+	ufApps      map[string][]*ufApp
+	ufAppSeen   map[string]bool
 	lenientFn   *ssa.Function // top-level init function executed leniently (failing instructions are skipped)
 	folded      int
 	foldedIDs   []string
@@ -116,7 +118,7 @@ func NewExec(prog *ssa.Program, cfg *HarnessCfg) *Exec {
 		initDone: map[*ssa.Package]bool{}, initRunning: map[*ssa.Package]bool{},
 		notes: map[string]int{}, loopCache: map[*ssa.Function]*loopForest{},
 		funcsSeen: map[string]bool{}, errObjs: map[string]*Object{}, typeObjs: map[string]*Object{},
-		ufAxiomDone: map[string]bool{}, strIntern: map[string]int{}, ghost: map[string]Value{}, negOf: map[int]*Term{}, dmCache: map[string][2]*Term{}, defOf: map[int]*Term{}, defAsserted: map[int]bool{}, feltQ: map[string]*big.Int{}, byteProv: map[int]byteProv{}}
+		ufAxiomDone: map[string]bool{}, strIntern: map[string]int{}, ghost: map[string]Value{}, negOf: map[int]*Term{}, dmCache: map[string][2]*Term{}, defOf: map[int]*Term{}, defAsserted: map[int]bool{}, feltQ: map[string]*big.Int{}, byteProv: map[int]byteProv{}, ufApps: map[string][]*ufApp{}, ufAppSeen: map[string]bool{}}
 }
 
 func (ex *Exec) note(s string) { ex.notes[s]++ }
@@ -871,7 +873,7 @@ func (ex *Exec) ensureInit(pkg *ssa.Package) {
 				o.ReadOnly = false
 			}
 		}
-		lenient := false
+		lenient := ex.cfg.Opts["lenientinit"] == "1"
 		for pat := range ex.cfg.Abstract {
 			if strings.Contains(pat, ".") && strings.HasSuffix(pkg.Pkg.Path(), pat[:strings.LastIndex(pat, ".")]) {
 				lenient = true
